@@ -409,6 +409,14 @@ func runForced(c caseT) runLog {
 			ok = advance(subProcs[st.P-1], stepWait)
 		case "Recv":
 			var e recvT
+			if c.Kinds[st.P-1].Lossy {
+				// how the lossy stage groups changes depends on when its goroutine runs: there may be
+				// nothing to take at this step (it was merged into an earlier or a later delivery)
+				if e, got := subs[st.P-1].recv(2 * time.Millisecond); got {
+					lg.Recv[st.P-1] = append(lg.Recv[st.P-1], e)
+				}
+				break
+			}
 			e, ok = subs[st.P-1].recv(stepWait)
 			if ok {
 				lg.Recv[st.P-1] = append(lg.Recv[st.P-1], e)
@@ -462,7 +470,11 @@ func runForced(c caseT) runLog {
 		}
 		_ = progressed
 	}
-	if lg.Drift != "" && lg.Problem == "" {
+	lossyAny := false
+	for _, k := range c.Kinds {
+		lossyAny = lossyAny || k.Lossy
+	}
+	if (lg.Drift != "" || lossyAny) && lg.Problem == "" {
 		// drain what the forwarders still hold so that the received sequences are complete
 		for i := range subs {
 			if subs[i].vch == nil && subs[i].cch == nil {
